@@ -13,10 +13,11 @@ CONSTANTS
   Root <- MC_Root
   CandU <- MC_CandU_chain
   AbortSets <- MC_AbortSets_one
-  MaxTicks = 4
+  MaxTicks = 3
   MaxCands = 2
   MaxCandsA = 1
   MaxAborts = 1
+  MaxFails = 0
   MaxJumps = 0
   PreNames = {"chain"}
   Export = TRUE
